@@ -464,7 +464,7 @@ class BaseART(BaseEstimator, ClusterMixin):
                 )
             T = np.array(T_values)
             while any(~np.isnan(T)):
-                c_ = int(np.nanargmax(T))
+                c_ = self._next_candidate(T)
                 w = self.W[c_]
                 cache = T_cache[c_]
                 m, cache = self.match_criterion_bin(
@@ -514,6 +514,17 @@ class BaseART(BaseEstimator, ClusterMixin):
         T, _ = zip(*[self.category_choice(x, w, params=self.params) for w in self.W])
         c_ = self._first_max(T)
         return c_
+
+    @staticmethod
+    def _next_candidate(T: np.ndarray) -> int:
+        """Index of the largest activation among the categories not yet reset.
+
+        Reset categories are marked NaN. np.nanargmax treats NaN as -inf, so with an
+        activation of -inf still to visit it could return a reset category for ever.
+
+        """
+        live = np.flatnonzero(~np.isnan(T))
+        return int(live[np.argmax(T[live])])
 
     @staticmethod
     def _first_max(T) -> int:
